@@ -69,6 +69,7 @@ def run(prog, chk):
     failure_signal(prog, chk)
     output_file(prog, chk)
     same_file(prog, chk)
+    server_stack(prog, chk)
 
 
 # ---------------------------------------------------------------------------
@@ -426,3 +427,14 @@ def same_file(prog, chk):
         ok = refuses
         detail = "equal canonical paths lead to Err and never to the construction of Config"
     chk.ob(ok, "A13.same-file", "from_args", fa.where(), "the canonicalised input and output paths are compared; when equal the command refuses (Err) before any Config exists", "same-file refusal is missing or does not resolve both paths through the file system: " + detail)
+
+
+def server_stack(prog, chk):
+    """the server runs a transform on a thread whose stack is an explicit constant at least as large as the main thread's
+    (8 MiB): the command and the endpoint then accept the same nesting (the stack *budget* itself is the thorough A12 rule)"""
+    if "server" not in prog.features:
+        return
+    import c01_thorough
+    limit, how = c01_thorough.server_stack_limit(prog)
+    ok = how.startswith("dedicated thread") and limit >= c01_thorough.MAIN_STACK
+    chk.ob(ok, "A13.server-stack", "server:transform-thread", "src/server.rs", f"{how}", f"the server's transform does not run on a thread with an explicit constant stack of at least 8 MiB ({how}, {limit} B): documents the svgdx command accepts can overflow the server's stack and abort the whole process")
